@@ -85,6 +85,35 @@ def replay(h, vals):
             "panic": pan.group(0) if pan else None,
             "cmd": "cd kani/%s && VERIF_REPLAY_HARNESS=%s VERIF_REPLAY_VALS='%s' %s" % (h["crate"], h["harness"], env["VERIF_REPLAY_VALS"], " ".join(cmd))}
 
+def run_regression(reg):
+    """re-run a recorded failing input of a FIXED finding on the real crates (plain cargo test): the
+    test fails iff the defect is back"""
+    crate = os.path.join(VERIF, "kani", reg["crate"])
+    env = dict(os.environ)
+    env["CARGO_NET_OFFLINE"] = "true"
+    env["CARGO_TARGET_DIR"] = os.path.join(VERIF, ".cache", "replay-target", reg["crate"])
+    env["RUSTFLAGS"] = (env.get("RUSTFLAGS", "") + " --cfg " + GUARD).strip()
+    try:
+        shutil.copy(os.path.join(REPO, "Cargo.lock"), os.path.join(crate, "Cargo.lock"))
+    except OSError:
+        pass
+    cmd = ["cargo", "test", "--offline", "--lib", reg["test"], "--", "--exact", "--nocapture"] if reg.get("exact") else ["cargo", "test", "--offline", "--lib", reg["test"], "--", "--nocapture"]
+    t0 = time.time()
+    try:
+        p = subprocess.run(cmd, cwd=crate, env=env, capture_output=True, text=True, timeout=reg.get("timeout", 1800))
+    except subprocess.TimeoutExpired:
+        return {"test": reg["test"], "status": "undecided", "reason": "timeout", "cmd": " ".join(cmd), "wall_s": round(time.time() - t0, 1)}
+    txt = p.stdout + p.stderr
+    m = re.search(r"test result: (\w+)\. (\d+) passed; (\d+) failed", txt)
+    out = {"test": reg["test"], "cmd": "cd kani/%s && %s" % (reg["crate"], " ".join(cmd)), "wall_s": round(time.time() - t0, 1), "tail": txt[-1500:]}
+    if not m or int(m.group(2)) + int(m.group(3)) == 0:
+        out["status"] = "undecided"; out["reason"] = "test did not run: " + txt[-300:].replace("\n", " | ")
+    elif int(m.group(3)) > 0:
+        out["status"] = "failed"
+    else:
+        out["status"] = "ok"
+    return out
+
 if __name__ == "__main__":
     import sys
     r = run_harness({"crate": sys.argv[1], "harness": sys.argv[2], "complete": True}, "quick")
